@@ -180,6 +180,72 @@ def jGraph (j : Json) : P Efp.Graph.G := do
             anc := anc.map Int.toNat, chi := chi.map Int.toNat, isCalc, live } : Efp.Graph.GNode))
   pure ns.toArray
 
+/-! typed JSON values of Model E -/
+open Efp.JsonModel in
+def jSource (j : Json) : P Efp.JsonModel.Source :=
+  match fldOpt j "source" with
+  | some a => do
+    let arr ← jArr a
+    if arr.size ≠ 2 then throw "source pair"
+    let l := match arr[1]! with | .str s => s | _ => "<null>"
+    pure (some (← jStr arr[0]!, l))
+  | none => pure none
+
+def sourceJson (s : Efp.JsonModel.Source) : Json :=
+  match s with
+  | some (n, l) => Json.arr #[Json.str n, Json.str l]
+  | none => Json.null
+
+def jMVal (j : Json) : P Efp.JsonModel.MVal := do
+  let t ← fs j "t"
+  match t with
+  | "q" => do pure (.q (← jRat (← fld j "mag")) (← fs j "unit") (← fs j "label") (← jSource j))
+  | "h" => do
+    let vs ← (← jArr (← fld j "vals")).toList.mapM jRat
+    pure (.h (← jInt (← fld j "start")) vs (← fs j "unit") (← fs j "label") (← jSource j))
+  | "empty" => do pure (.empty (← fs j "label"))
+  | "sobj" => do pure (.sobj (← fs j "value") (← fs j "label") (← jSource j))
+  | "link" => do pure (.link (← fs j "id"))
+  | "list" => do pure (.list (← fsl j "ids"))
+  | "raw" => do pure (.raw (← fs j "s"))
+  | "null" => pure .null
+  | _ => throw s!"bad MVal {t}"
+
+def jJVal (j : Json) : P Efp.JsonModel.JVal := do
+  let t ← fs j "t"
+  match t with
+  | "q" => do pure (.q (← jRat (← fld j "mag")) (← fs j "unit") (← fs j "label") (← jSource j))
+  | "h" => do
+    let vs ← (← jArr (← fld j "vals")).toList.mapM jRat
+    pure (.h (← jInt (← fld j "start")) vs (← fs j "unit") (← fs j "label") (← jSource j))
+  | "empty" => do pure (.empty (← fs j "label"))
+  | "sobj" => do pure (.sobj (← fs j "value") (← fs j "label") (← jSource j))
+  | "str" => do pure (.str (← fs j "s"))
+  | "strs" => do pure (.strs (← fsl j "l"))
+  | "null" => pure .null
+  | _ => throw s!"bad JVal {t}"
+
+def jvalJson : Efp.JsonModel.JVal → Json
+  | .q m u l s => Json.mkObj [("t", "q"), ("mag", ratStr m), ("unit", u), ("label", l), ("source", sourceJson s)]
+  | .h st vs u l s => Json.mkObj [("t", "h"), ("start", Json.num st), ("vals", Json.arr (vs.map (fun v => Json.str (ratStr v))).toArray),
+                                   ("unit", u), ("label", l), ("source", sourceJson s)]
+  | .empty l => Json.mkObj [("t", "empty"), ("label", l)]
+  | .sobj v l s => Json.mkObj [("t", "sobj"), ("value", v), ("label", l), ("source", sourceJson s)]
+  | .str s => Json.mkObj [("t", "str"), ("s", s)]
+  | .strs l => Json.mkObj [("t", "strs"), ("l", Json.arr (l.map Json.str).toArray)]
+  | .null => Json.mkObj [("t", "null")]
+
+def mvalJson : Efp.JsonModel.MVal → Json
+  | .q m u l s => Json.mkObj [("t", "q"), ("mag", ratStr m), ("unit", u), ("label", l), ("source", sourceJson s)]
+  | .h st vs u l s => Json.mkObj [("t", "h"), ("start", Json.num st), ("vals", Json.arr (vs.map (fun v => Json.str (ratStr v))).toArray),
+                                   ("unit", u), ("label", l), ("source", sourceJson s)]
+  | .empty l => Json.mkObj [("t", "empty"), ("label", l)]
+  | .sobj v l s => Json.mkObj [("t", "sobj"), ("value", v), ("label", l), ("source", sourceJson s)]
+  | .link i => Json.mkObj [("t", "link"), ("id", i)]
+  | .list is => Json.mkObj [("t", "list"), ("ids", Json.arr (is.map Json.str).toArray)]
+  | .raw s => Json.mkObj [("t", "raw"), ("s", s)]
+  | .null => Json.mkObj [("t", "null")]
+
 def handle (j : Json) : P Json := do
   let cmd ← fs j "cmd"
   match cmd with
@@ -235,6 +301,30 @@ def handle (j : Json) : P Json := do
       | .refusedBeforeApply e => pure (Json.mkObj [("outcome", "refused-before-apply"), ("err", e.tag)])
       | .refusedAfterApply e => pure (Json.mkObj [("outcome", "refused-after-apply"), ("err", e.tag)])
       | .accepted => pure (Json.mkObj [("outcome", "accepted")])
+  | "jsonenc" =>
+    let objs ← (← fl j "model").mapM (fun o => do
+      let attrs ← (← fl o "attrs").mapM (fun p => do
+        let a ← jArr p
+        if a.size ≠ 2 then throw "attr pair"
+        pure (← jStr a[0]!, ← jMVal a[1]!))
+      pure ({ cls := ← fs o "cls", id := ← fs o "id", attrs } : Efp.JsonModel.MObj))
+    let root ← fs j "root"
+    let fuel := 4 * (objs.length + 2) * (objs.length + 2) + 100
+    let c := Efp.JsonModel.collect objs fuel root
+    let out := Efp.JsonModel.encode objs fuel root
+    pure (Json.mkObj [("done", Json.bool c.2), ("objs", Json.arr (out.map (fun o =>
+      Json.mkObj [("cls", o.cls), ("id", o.id), ("attrs", Json.arr (o.attrs.map (fun p => Json.arr #[Json.str p.1, jvalJson p.2])).toArray)])).toArray)])
+  | "jsondec" =>
+    let objs ← (← fl j "jsys").mapM (fun o => do
+      let attrs ← (← fl o "attrs").mapM (fun p => do
+        let a ← jArr p
+        if a.size ≠ 2 then throw "attr pair"
+        pure (← jStr a[0]!, ← jJVal a[1]!))
+      pure ({ cls := ← fs o "cls", id := ← fs o "id", attrs } : Efp.JsonModel.JObj))
+    let objs := match fldOpt j "upgrade9" with | some (.bool true) => Efp.JsonModel.upgrade9to10 objs | _ => objs
+    let out := Efp.JsonModel.decode objs
+    pure (Json.mkObj [("objs", Json.arr (out.map (fun o =>
+      Json.mkObj [("cls", o.cls), ("id", o.id), ("attrs", Json.arr (o.attrs.map (fun p => Json.arr #[Json.str p.1, mvalJson p.2])).toArray)])).toArray)])
   | "time" =>
     let fn ← fs j "fn"
     let start ← jInt (← fld j "start")
@@ -281,7 +371,19 @@ def handle (j : Json) : P Json := do
         Json.mkObj [("chain", Json.arr (c.map (fun p => Json.arr #[Json.num (p.1 : Int), Json.bool p.2])).toArray),
                     ("ok", Json.bool ok)]
       | none => Json.str "hang")
-    pure (Json.mkObj [("chains", Json.arr res.toArray)])
+    -- grouped updates: concatenate the chains of the changed inputs, keep last occurrences
+    let groups ← match fldOpt j "groups" with
+      | some a => (do (← jArr a).toList.mapM (fun grp => do (← jArr grp).toList.mapM jInt))
+      | none => pure []
+    let gres := groups.map (fun grp =>
+      let chains := grp.map (fun s => Efp.Graph.attrUpdatesChain g fuel s.toNat)
+      if chains.any (·.isNone) then Json.str "hang" else
+      let all := (chains.filterMap id).flatten
+      let c := Efp.Graph.keepLast all
+      let ok := Efp.Theory.chainOk (Efp.Graph.slotReads g) calcs (grp.map (fun s => (g[s.toNat]!).sid)) (c.map (·.1))
+      Json.mkObj [("chain", Json.arr (c.map (fun p => Json.arr #[Json.num (p.1 : Int), Json.bool p.2])).toArray),
+                  ("ok", Json.bool ok)])
+    pure (Json.mkObj [("chains", Json.arr res.toArray), ("groups", Json.arr gres.toArray)])
   | _ => throw s!"unknown cmd {cmd}"
 
 partial def loop (h : IO.FS.Stream) (out : IO.FS.Stream) : IO PUnit := do
